@@ -177,7 +177,19 @@ func (o *GenOpts) Message(r *vschema.Rand, s *vschema.Schema, mi int, depth int)
 			groupMembers[f.Group] = append(groupMembers[f.Group], j)
 		}
 	}
-	for g, ms := range groupMembers {
+	// iterate the groups in index order: ranging over the map would consume the random stream in a
+	// run-dependent order (non-reproducible values for messages with several oneofs)
+	ngroups := 0
+	for g := range groupMembers {
+		if g+1 > ngroups {
+			ngroups = g + 1
+		}
+	}
+	for g := 0; g < ngroups; g++ {
+		ms, ok := groupMembers[g]
+		if !ok {
+			continue
+		}
 		if r.Chance(75) {
 			active[g] = ms[r.Intn(len(ms))]
 		} else {
